@@ -11,6 +11,7 @@ import MetapypeModel.Model.Registry
 import MetapypeModel.Model.Prune
 import MetapypeModel.Model.Expand
 import MetapypeModel.Model.Normalize
+import MetapypeModel.Model.XNorm
 import MetapypeModel.Model.Evaluate
 import MetapypeModel.Model.Json
 import MetapypeModel.Model.Xml
@@ -82,6 +83,21 @@ partial def specOfJson (j : Json) (top : Bool := true) : Option Spec :=
             | _, _, _ => none
           else none
   | _ => none
+
+partial def getXD (j : Json) : XD :=
+  match j with
+  | .arr #[.str "e", .str n, .arr a, .arr ks] =>
+      .elem n (a.toList.filterMap (fun kv => match kv with | .arr #[.str k, .str v] => some (k, v.toList) | _ => none))
+        (ks.toList.map getXD)
+  | .arr #[.str "t", .str s] => .text s.toList
+  | .arr #[.str "o", .str s] => .other s
+  | _ => .other "?"
+
+partial def xnJson : XD → Json
+  | .elem n a ks => .arr #[.str "e", .str n, .arr (a.map (fun kv => Json.arr #[.str kv.1, .str (String.ofList kv.2)])).toArray,
+                            .arr (ks.map xnJson).toArray]
+  | .text s => .arr #[.str "t", .str (String.ofList s)]
+  | .other s => .arr #[.str "o", .str s]
 
 def evJson : Ev → Json
   | .err k => .str k.toString
@@ -229,6 +245,7 @@ def handle (j : Json) : Json :=
         Json.mkObj [("required", match isRequiredAttribute r.attrs a with | some b => .bool b | none => .str "Exception"),
                     ("values", match allowedAttributeValues r.attrs a with
                                | some vs => .arr (vs.map Json.str).toArray | none => .str "Exception")]
+  | some "xnorm" => xnJson (xmlNormalize Gen.xsltProtected (getXD (fld j "doc")))
   | some "synth" =>
       -- a rule that is not in the table: children spec given in the rules.json shape
       match specOfJson (fld j "spec") with
